@@ -15,7 +15,10 @@ LEVEL_TEXT = ("Theorems in Coq, for every cluster, label assignment, policy list
               "The model is tied to the Go code by running the real ensemble/single selectors, nodeBasedBalancer.swapShard / "
               "rebalanceEnsemble and swapNode's metadata step on generated clusters, several runs per case to sample map orders; "
               "every implementation result must be in the model's admissible set; the specification predicates are also evaluated "
-              "directly on the implementation's outputs.")
+              "directly on the implementation's outputs. The shard-creation glue is driven through the real coordinator.NewCoordinator "
+              "(initial assignment, start-up on a stored status, ConfigChanged via the config notification channel, restart with a "
+              "changed config, balancer swaps that follow): after every step every ensemble of the stored cluster status is judged "
+              "(status:* signatures) and every created-or-refused namespace must be in the model's admissible set (kind place).")
 LEVEL_NOTE = ("Trusted: Coq kernel, extraction (ExtrOcamlBasic), the Go harness and its canonicalisation. Modelled, not verified: "
               "the float load-ratio arithmetic of DefaultShardsRank / balanceHighestNode (the node ranking and the list of (shard, from) "
               "requests of a round are inputs of the model, observed from the real run); gods linkedhashset as an insertion-ordered set "
@@ -30,7 +33,10 @@ ASSUMES = ["server identifiers are non-empty strings (the chain treats \"\" as '
 RULE = ("clusters of 3-9 servers (ids 1..12, random insertion order), 0-3 labels with 1-4 values, missing labels / missing metadata, "
         "rf 0-5, 0-3 rules of 0-2 labels (Strict/Relaxed/unknown mode), ranking full/partial/empty/nil, ServerIdx small/large/nil status; "
         "swap: existing placements incl. servers removed from the cluster; round: 2-7 live + 0-3 removed servers, 1-10 shards; "
-        "non-trivial = rf>=2 or rules present (ens), all single/swap/swapnode/round cases; distinct by full case content")
+        "place: real coordinator on 2-6 servers, 0-2 labels (one value per server / about as many values as servers / 1-3 values), "
+        "namespaces with rf <, =, > cluster size and Strict/Relaxed/two-label/two-rule policies, steps I/E/C/R with servers added or "
+        "removed and labels changed; "
+        "non-trivial = rf>=2 or rules present (ens), all single/swap/swapnode/round/place cases; distinct by full case content")
 
 
 def _subset(impl, model):
